@@ -65,13 +65,48 @@ def f_cands(lo, hi, nan, rnd, kind, nrand=6):
     return s
 
 
+def rem_candidates(state, k, lo, hi, consts=()):
+    """parameter values that put a remainder symbol of the path at its (narrow) bounds: p = sigma*(s - c + j*m)"""
+    from .lin import term_args
+    out = set()
+    pk = "p%d" % k
+    for s_, (a, z) in state.bounds.items():
+        ta = term_args(s_) if isinstance(s_, str) else None
+        if ta is None or ta[0] != "rem+":
+            continue
+        cn, d, items = ta[1]
+        items = dict(items)
+        if d != 1 or set(items) != {pk} or abs(items[pk]) != 1:
+            continue
+        m = ta[2]
+        sigma = items[pk]
+        svs = {a, z, (a + z) // 2}
+        for c_ in consts:
+            for d_ in (-1, 0, 1):
+                if a <= c_ + d_ <= z:
+                    svs.add(c_ + d_)
+        for sv in svs:
+            for j in (0, 1, 2, 3, 5, 17, 1000, 10 ** 6, (hi // m) if m else 0, ((hi // m) - 1) if m else 0, (lo // m) if m else 0):
+                for jj in (j, -j):
+                    v = sigma * (sv - cn + jj * m)
+                    if lo <= v <= hi:
+                        out.add(v)
+    return out
+
+
 def candidates(an, state, rnd, limit=4000):
     """yield argument tuples drawn from the refined box of an alarm/path state"""
     per = []
     for k, (pn, ty) in enumerate(an.fn.params):
         if ty.kind == "int":
             lo, hi = state.bounds["p%d" % k]
-            per.append(int_cands(lo, hi, rnd))
+            consts = getattr(an, "cmp_consts", ())
+            extra = set()
+            for c_ in consts:
+                for v in (c_, c_ + 1, c_ - 1, -c_, -c_ + 1, -c_ - 1):
+                    if lo <= v <= hi:
+                        extra.add(v)
+            per.append(sorted(set(int_cands(lo, hi, rnd)) | rem_candidates(state, k, lo, hi, consts) | extra))
         else:
             lo, hi, nan = state.fb["f%d" % k]
             per.append(f_cands(lo, hi, nan, rnd, ty.kind))
